@@ -277,3 +277,9 @@ B("c15-obs-float32", "C15", "C15.R3", (W, "jumanji_to_gym_obs", "expr", "np.asar
 B("c01-maze-count-bound-area", "C01", "C01.R3", (R + "maze/env.py", "Maze.observation_spec", "expr", "specs.Array((), jnp.int32, 'step_count')", "specs.BoundedArray((), jnp.int32, 0, self.num_rows * self.num_cols, 'step_count')"))
 B("c10-connector-two-draws", "C10", "C10.R2", (R + "connector/generator.py", "UniformRandomGenerator.__call__", "replace_stmt", "starts_flat, targets_flat = jax.random.choice(", "cells = jnp.arange(self.grid_size ** 2)\nstarts_flat = jax.random.choice(pos_key, cells, (self.num_agents,), replace=False)\ntargets_flat = jax.random.choice(key, cells, (self.num_agents,), replace=False)"))
 B("c04-flatpack-meshgrid-order", "C04", "C04.R7", (P + "flat_pack/env.py", "FlatPack._make_action_mask", "expr", "jnp.meshgrid(jnp.arange(num_blocks), jnp.arange(num_rotations), jnp.arange(num_placement_rows), jnp.arange(num_placement_cols), indexing='ij')", "jnp.meshgrid(jnp.arange(num_blocks), jnp.arange(num_rotations), jnp.arange(num_placement_cols), jnp.arange(num_placement_rows), indexing='ij')"))
+# ---------------------------------------------------------------- sibling reset/step call sites (W4)
+B("c07-snake-stale-fruit-body", "C07", "C07.R3", (R + "snake/env.py", "Snake.step", "expr", "jax.lax.cond(fruit_eaten, self._sample_fruit_coord, lambda *_: state.fruit_position, body, fruit_key)", "jax.lax.cond(fruit_eaten, self._sample_fruit_coord, lambda *_: state.fruit_position, state.body, fruit_key)"))
+B("c04-maze-stale-mask-position", "C04", "C04.R8", (R + "maze/env.py", "Maze.step", "expr", "self._compute_action_mask(state.walls, agent_position)", "self._compute_action_mask(state.walls, state.agent_position)"))
+B("c04-2048-stale-mask-board", "C04", "C04.R8", (L + "game_2048/env.py", "Game2048.step", "expr", "self._get_action_mask(board=updated_board)", "self._get_action_mask(board=state.board)"))
+B("c04-snake-stale-mask-body", "C04", "C04.R8", (R + "snake/env.py", "Snake.step", "expr", "self._get_action_mask(head_position, body_state)", "self._get_action_mask(head_position, state.body_state)"))
+T("c07-twin-snake-fruit-body-expr", "C07", (R + "snake/env.py", "Snake.step", "expr", "jax.lax.cond(fruit_eaten, self._sample_fruit_coord, lambda *_: state.fruit_position, body, fruit_key)", "jax.lax.cond(fruit_eaten, self._sample_fruit_coord, lambda *_: state.fruit_position, body_state > 0, fruit_key)"))
